@@ -37,6 +37,12 @@ def recorded (ops : List Op) (k : Nat) (done : Bool) : List Op :=
 /-- The history an uninterrupted run is compared with: the recorded part, then the remaining data. -/
 def survived (ops : List Op) (k : Nat) (done : Bool) : List Op := recorded ops k done ++ ops.drop (k + 1)
 
+/-- The history an uninterrupted run is compared with after SEVERAL process deaths (crash points as in
+`multiCrash`; `done ops k j` says whether the operation in flight had committed). -/
+def multiSurvived (done : List Op → Nat → Nat → Bool) (ops : List Op) : List (Nat × Nat) → List Op
+  | [] => ops
+  | (k, j) :: cs => recorded ops k (done ops k j) ++ multiSurvived done (ops.drop (k + 1)) cs
+
 /-- Is a record for `(T,id)` expected on disk at all? (`Collect` clears the record on OK; the reconciling
 `UpdateEvent` stores whatever it is given.) -/
 def recordExpectedFrom (b0 : Bool) (ops : List Op) (T id : String) : Bool :=
